@@ -24,7 +24,7 @@ ASSUMPTIONS = [
     "replace_value with more distinct values than alphabet symbols is outside the statement (skipped, counted)",
 ]
 REQUIRED_MONITORS = ["transformer.copy_from_to", "transformer.replace_value", "transformer.main"]
-REQUIRED_CLAUSES = ["copy.other-blocks-preserved", "replace.other-blocks-preserved", "copy.frame-preserved", "copy.target-equals-source", "replace.frame-preserved", "replace.mapping-injective-first-seen", "absent.untouched", "cli.equals-library"]
+REQUIRED_CLAUSES = ["copy.other-blocks-preserved", "replace.other-blocks-preserved", "copy.frame-preserved", "copy.target-equals-source", "replace.frame-preserved", "replace.mapping-injective-first-seen", "absent.untouched", "cli.equals-library", "cli.in-place-equals-library"]
 LANDMARKS = {
     "copy-new-column": ("copy_from_to", "attributes.append(copy_to)"),
     "copy-existing": ("copy_from_to", "row[j] = row[i]"),
@@ -332,6 +332,15 @@ def _drive(rec, text, cat, op_kind, a, b, abstract=None):
                 mech = "cli-passes-path-as-content"
         rec.check("cli.equals-library", err is None and got == want,
                   lambda: {"op": op_kind, "category": cat, "a": a, "b": b, "error": err, "cli-output": (got or "")[:200], "library-output": want[:200]}, mechanism=mech)
+        # editing in place: the output path is the input path
+        if int(core.chash([text[:200], cat, a, b])[:2], 16) % 3 == 0:
+            pin2 = os.path.join(d, "inplace.cif")
+            open(pin2, "w").write(text)
+            argv2 = [pin2, pin2] + argv[2:]
+            err2 = _run_main(argv2)
+            got2 = open(pin2).read()
+            rec.check("cli.in-place-equals-library", err2 is None and got2 == want,
+                      lambda: {"op": op_kind, "category": cat, "a": a, "b": b, "error": err2, "file-after": got2[:200], "library-output": want[:200]})
     finally:
         import shutil
 
